@@ -113,7 +113,16 @@ def guards_of(target: ast.AST, root_body: List[ast.stmt]) -> Optional[List[Tuple
                     local.append((s.test, False))
         return None
 
-    return search(root_body, [])
+    res = search(root_body, [])
+    if res is None:
+        return None
+    # tests without a leading negation: (not T, p) is (T, not p)
+    out = []
+    for t, pol in res:
+        while isinstance(t, ast.UnaryOp) and isinstance(t.op, ast.Not):
+            t, pol = t.operand, not pol
+        out.append((t, pol))
+    return out
 
 
 def _contains(s: ast.AST, target: ast.AST) -> bool:
@@ -139,4 +148,32 @@ def guard_table(guards: List[Tuple[ast.AST, bool]], atom_of: AtomFn, atoms: List
                 ok = False
                 break
         out[vals] = ok
+    return out
+
+
+
+def regions_guarded_by(root: ast.AST, pred) -> List[Tuple[ast.AST, List[ast.stmt]]]:
+    """[(the if statement, the statements that run when pred(test) holds)] for every `if` below root whose (un-negated) test satisfies
+    pred: the body of `if T:`, the else-branch of `if not T: … else:`, or the statements that follow `if not T: continue/return/…`
+    in the same block."""
+    out = []
+    for node in ast.walk(root):
+        for fld in ("body", "orelse", "finalbody"):
+            blk = getattr(node, fld, None)
+            if not (isinstance(blk, list) and blk and isinstance(blk[0], ast.stmt)):
+                continue
+            for i, st in enumerate(blk):
+                if not isinstance(st, ast.If):
+                    continue
+                t, pol = st.test, True
+                while isinstance(t, ast.UnaryOp) and isinstance(t.op, ast.Not):
+                    t, pol = t.operand, not pol
+                if not pred(t):
+                    continue
+                if pol:
+                    out.append((st, list(st.body)))
+                elif st.orelse:
+                    out.append((st, list(st.orelse)))
+                elif _always_exits(st.body):
+                    out.append((st, list(blk[i + 1:])))
     return out
